@@ -459,6 +459,52 @@ fn o_laws(args: &[String]) -> String {
     if (&sk1 + &sk2).public_key() != &pk1 + &pk2 {
         return "FAIL pk(sk1+sk2) != pk1+pk2".into();
     }
+    // every operator form (by reference, by value, in place), on distinct, EQUAL, opposite and infinity operands
+    {
+        let inf = PublicKey::default();
+        let mut neg1 = PublicKey::default();
+        neg1 -= &pk1;
+        let ops: [(&str, &SecretKey, &PublicKey, &SecretKey, &PublicKey); 3] =
+            [("distinct", &sk1, &pk1, &sk2, &pk2), ("equal", &sk1, &pk1, &sk1, &pk1), ("equal2", &sk2, &pk2, &sk2, &pk2)];
+        for (what, sa, pa, sb, pb) in ops {
+            let want = (sa + sb).public_key();
+            let by_ref = pa + pb;
+            let by_val = pa.clone() + pb;
+            let mut in_place = pa.clone();
+            in_place += pb;
+            let sk_val = (sa.clone() + sb).public_key();
+            let mut sk_in_place = sa.clone();
+            sk_in_place += sb;
+            if by_ref != want || by_val != want || in_place != want || sk_val != want || sk_in_place.public_key() != want {
+                return format!("FAIL public/secret key addition forms disagree on {} operands", what);
+            }
+            // chain: (a + b) + (a + b) through the by-value operator
+            let sum = pa + pb;
+            if sum.clone() + &sum != (&(sa + sb) + &(sa + sb)).public_key() {
+                return format!("FAIL by-value doubling of a sum on {} operands", what);
+            }
+        }
+        if pk1.clone() + &neg1 != inf || &pk1 + &neg1 != inf || pk1.clone() + &inf != pk1 || inf.clone() + &pk1 != pk1 || &inf + &inf != inf
+            || inf.clone() + &inf != inf {
+            return "FAIL public key addition with the opposite / infinity operand".into();
+        }
+        let a1 = {
+            let mut a = pk1.to_bytes().to_vec();
+            a.extend_from_slice(&msg);
+            a
+        };
+        let s1 = sign_raw(&sk1, &a1);
+        let s12 = sign_raw(&(&sk1 + &sk1), &a1);
+        let mut s_in_place = s1.clone();
+        s_in_place += &s1;
+        if &s1 + &s1 != s12 || s1.clone() + &s1 != s12 || s_in_place != s12 {
+            return "FAIL signature addition forms disagree on equal operands".into();
+        }
+        let sinf = Signature::default();
+        if s1.clone() + &sinf != s1 || sinf.clone() + &s1 != s1 || &sinf + &sinf != sinf {
+            return "FAIL signature addition with the identity".into();
+        }
+    }
     // synthetic keys
     if sk1.derive_synthetic_hidden(&hidden).public_key() != pk1.derive_synthetic_hidden(&hidden) {
         return "FAIL derive_synthetic_hidden does not commute".into();
